@@ -288,10 +288,10 @@ impl Boudot2000RangeProof {
             D_1 = w + (x * &c);
             D_2 = nu + (r * &c);
 
+            // the same interval the verifier accepts: [c * b, 2^T * (2^(t + l) * b - 1)]
             if c * b <= D_1
                 && D_1
-                    <= (Integer::from(2).pow(T) * Integer::from(2).pow(t + l)) * b
-                        - Integer::from(1)
+                    <= Integer::from(2).pow(T) * (Integer::from(2).pow(t + l) * b - Integer::from(1))
             {
                 boolean = false;
             }
